@@ -391,6 +391,19 @@ def r06_8(ctx: Ctx):
                   key=f'{rid}::{m.func.module.relpath}::{m.func.short}::writes-stored-item::'
                       f'{m.field if isinstance(m.field, str) else "[]"}')
     ctx.floor(rid, 'write sites touching stored items', nw, 3)
+    # the recorded value z / index of a stored item: set through the setters, by the evaluation routine only
+    zsetters = {roles.fq(item.lookup(n_)): n_ for n_ in ('SetZ', 'SetIndex') if item.lookup(n_)}
+    zallowed = roles.dominated_closure({roles.fq(er)})
+    for sq, nm in zsetters.items():
+        for (caller, _nid) in pta.callers.get(sq, ()):
+            f = ctx.ix.funcs.get(caller)
+            if f is not None and not f.module.name.startswith(('iOpt.method', 'iOpt.solver')):
+                continue
+            ctx.check(caller in zallowed, rid, f.short if f else caller, f.loc() if f else '',
+                      f'{nm} is called from the evaluation routine',
+                      f'{f.short if f else caller} calls {nm} on an item outside the evaluation routine: the value '
+                      f'recorded for a stored trial no longer is the objective at the image of its coordinate',
+                      key=f'{rid}::{caller}::calls::{nm}')
 
 
 def check(ctx: Ctx):
